@@ -6,7 +6,11 @@ PROP=$(python3 -c "import json;print(json.load(open('$D/meta.json'))['property']
 cd /verif
 git -C /repo status --short | grep -v '^??' | grep . && { echo "/repo not clean"; exit 9; }
 git -C /repo apply $D/patch.diff || { echo "patch does not apply"; exit 8; }
+# the evidence file of the property must keep describing the UNCHANGED tree: save and restore it around the seeded run
+cp evidence/$PROP.json /tmp/evidence_$PROP.json.bak 2>/dev/null
 ./check $PROP --tier $TIER > $D/check_$TIER.out 2>&1; RC=$?
+cp evidence/$PROP.json $D/evidence_$TIER.json 2>/dev/null
+cp /tmp/evidence_$PROP.json.bak evidence/$PROP.json 2>/dev/null
 git -C /repo checkout -- .
 python3 - <<PY
 import json
